@@ -4,8 +4,8 @@
     absurdly large) length, an index outside the ring and a modulo by zero are
     [Panic]; the inner probe loop [for targets[next] != nil] is run with fuel
     [length ring + 1] and answers [Err diverges] exactly when the ring has no empty
-    slot, i.e. when the Go loop would spin forever (Proofs/Weigh.v: [probe_full_diverges],
-    [fill_terminates]).  No proofs in this file. *)
+    slot, i.e. when the Go loop would spin forever (Proofs/Ring.v: [probe_scan_eq],
+    [probe_full_diverges], [ring_of_counts_spec]).  No proofs in this file. *)
 From Coq Require Import List ZArith NArith Bool.
 From Fabio Require Import Lib.Outcome Model.Weigh.
 Import ListNotations.
@@ -94,7 +94,10 @@ Definition ring_of_counts (sorted : list (nat * Z)) (counts : list Z) : outcome 
     crash" matters): the make check, then with P = the number of slots the fill
     wants to occupy: nothing to place -> fine; an empty ring -> the first
     [targets[next]] is out of range; more to place than slots -> the probe loop
-    never ends (Proofs/Weigh.v: [ring_status_ok_sound]). *)
+    never ends.  A shortcut: its agreement with [ring_of_counts] is argued here, not
+    proved; the correspondence check uses it only for the intermediate states of
+    sequences on which the implementation crashed or that contain an extreme weight
+    (the final state always goes through [ring_of_counts_scan] or a prefix of it). *)
 Definition wanted_slots (counts : list Z) : Z :=
   fold_left (fun p n => if (n <=? 0)%Z then p else (p + n)%Z) counts 0%Z.
 Definition ring_status (counts : list Z) : outcome unit :=
@@ -131,7 +134,7 @@ Definition occupancy (t : option nat) (r : ring) : nat := length (filter (slot_e
     [probe (S (length r)) r (length r) next] walks the ring slot by slot, each step a
     list access; for rings of 10^4 slots that is too slow to evaluate inside Coq.
     [probe_scan] finds the same slot (the first empty one at or after [next],
-    cyclically) in one scan.  Proofs/Weigh.v proves [probe_scan_eq] / [ring_of_counts_scan_eq]:
+    cyclically) in one scan.  Proofs/Ring.v proves [probe_scan_eq] / [ring_of_counts_scan_eq]:
     the two agree on every input; the correspondence check evaluates this one. *)
 Fixpoint find_none (l : ring) : option nat :=
   match l with
